@@ -1,4 +1,5 @@
 import Tickit.Proof.Bindings
+import Tickit.Proof.BindingsRoot
 import Tickit.Gen.Bindings
 /-
   C16 — Handlers fire once per event, in order, never after unbind, even re-entrantly.
@@ -423,6 +424,241 @@ theorem live_bindings_are_in_chain : LiveInChainStmt Cfg.repaired := by
   have := execOps_good own beh hb fuel ops St.init hops Top.init (RefOk.init own)
   rw [hr] at this
   exact ((this.2 hnd hal).1.1.liveIff k).symm
+
+/-! ### a library client of the bindings: the root window on its terminal (`src/window.c`)
+
+`tickit_window_new_root2` binds three handlers on the terminal and keeps the identifiers; `tickit_window_destroy` hands them
+to `tickit_term_unbind_event_id`.  The clauses "run exactly once per occurrence" and "exactly one unbind notification, if it
+asked" for the *application's* handlers on that terminal depend on these identifiers still denoting the root window's own
+bindings when it lets go of them: identifiers are `max + 1` over the live bindings, so an identifier that is unbound twice
+with a bind in between removes somebody else's binding.  `Model/BindingsRoot.lean` transcribes the root window's side
+(`rootNew`, `rootRef`, `rootClose`, `rootUnref`, `unbindAll`); the library's handlers are handlers `LIB_H + i` of the
+behaviour table. -/
+
+/-- What the model assumes of window.c is what the source says: the root window binds the terminal's resize, key and mouse
+    events, in this order, with flags 0, into `event_ids[0..2]`; it unbinds `event_ids[0..2]`; and no other function of
+    window.c binds or unbinds anything on the terminal. -/
+theorem gen_root_client :
+    Tickit.Gen.Bindings.rootBinds = rootEvents.map (fun ev => (ev, 0)) ∧
+    Tickit.Gen.Bindings.rootBindIdx = [0, 1, 2] ∧ Tickit.Gen.Bindings.rootUnbindIdx = [0, 1, 2] ∧
+    Tickit.Gen.Bindings.rootBindSites = ["tickit_window_new_root2"] ∧
+    Tickit.Gen.Bindings.rootUnbindSites = ["tickit_window_destroy"] := by decide
+
+/-- …and the window's event numbers are those of `Owner.win`: GEOMCHANGE, EXPOSE, FOCUS by `run_events`; KEY, MOUSE by
+    `run_events_whilefalse`. -/
+theorem gen_window_events :
+    (Tickit.Gen.Bindings.TICKIT_WINDOW_ON_GEOMCHANGE, Tickit.Gen.Bindings.TICKIT_WINDOW_ON_EXPOSE,
+     Tickit.Gen.Bindings.TICKIT_WINDOW_ON_FOCUS, Tickit.Gen.Bindings.TICKIT_WINDOW_ON_KEY,
+     Tickit.Gen.Bindings.TICKIT_WINDOW_ON_MOUSE) = (1, 2, 3, 4, 5) ∧
+    (∀ ev, Owner.win.canEmit ev = true → (Owner.win.wf ev = true ↔ ev = 4 ∨ ev = 5)) := by
+  refine ⟨by decide, fun ev h => ?_⟩
+  simp only [Owner.win, decide_eq_true_eq] at h ⊢
+  omega
+
+/-- **An identifier denotes its binding.**  After any history, the identifier `bind_event` returned for binding `k` —
+    however many bindings were made and unbound since, by handlers at any depth — is found by `unbind_event_id` at exactly
+    that binding, for as long as `k` is live (not unbound, not a delivered one-shot). -/
+def IdDenotesStmt (cfg : Cfg) : Prop :=
+  ∀ own beh, Safe own beh → ∀ fuel ops st, ValidOps ops → Runs cfg own beh fuel ops st → Op.destroy ∉ ops → st.dead = false →
+    ∀ k id ev first fl, Ev.bound k id ev first fl ∈ st.log → liveAt st.log k →
+      ∃ b, findId st.list id = some b ∧ b.key = k ∧ b.flags = fl
+
+theorem id_denotes_its_binding : IdDenotesStmt Cfg.repaired := by
+  intro own beh hb fuel ops st hops hr hnd hal k id ev first fl hbd hl
+  have := execOps_good own beh hb fuel ops St.init hops Top.init (RefOk.init own)
+  rw [hr] at this
+  obtain ⟨b, hf, _, hk, _, hfl, _⟩ := id_denotes_binding (this.2 hnd hal).1.1 hbd hl
+  exact ⟨b, hf, hk, hfl⟩
+
+/-- …in every state a task runs in (any nesting depth), being a consequence of the invariant. -/
+theorem id_denotes_its_binding_inv (st : St) (h : Tickit.Bindings.Inv st) (k : Nat) (id ev : Int) (first : Bool) (fl : BFlags)
+    (hbd : Ev.bound k id ev first fl ∈ st.log) (hl : liveAt st.log k) :
+    ∃ b, findId st.list id = some b ∧ b.key = k ∧ b.flags = fl := by
+  obtain ⟨b, hf, _, hk, _, hfl, _⟩ := id_denotes_binding h hbd hl
+  exact ⟨b, hf, hk, hfl⟩
+
+/-- a history of a terminal on which root windows come and go, from the empty binding list -/
+def RunsW (cfg : Cfg) (own : Owner) (beh : Behaviour) (fuel : Nat) (ops : List WOp) (w : WSt) : Prop :=
+  execWOps cfg own beh fuel ops WSt.init = .ok w
+
+def ValidWOps (ops : List WOp) : Prop := ∀ op ∈ ops, WOpOk op
+
+/-- **Histories with a root window.**  For every history of binds, unbinds, emissions (all behaviours, any depth) and
+    root-window operations on a terminal, *as long as nobody but the root window unbinds the root window's three bindings*
+    (`Intact`: the application hands `unbind` identifiers of its own bindings only): no undefined behaviour, and between
+    operations the terminal's state satisfies the invariant all clauses above rest on (`Top`: `fire_order`,
+    `unbind_notifies`, `live_ids_unique`, … apply to it), the root window's identifiers are those its binds returned, and
+    the reference it holds on the terminal is accounted for. -/
+def RootHistoryStmt (cfg : Cfg) : Prop :=
+  ∀ own beh, Safe own beh → ∀ fuel ops, ValidWOps ops → Intact own beh fuel ops WSt.init →
+    (∀ x, execWOps cfg own beh fuel ops WSt.init ≠ .ub x) ∧
+    ∀ w, RunsW cfg own beh fuel ops w → WOp.base .destroy ∉ ops → w.st.dead = false → WInv own w
+
+theorem root_history_good : RootHistoryStmt Cfg.repaired := by
+  intro own beh hs fuel ops hops hint
+  have := execWOps_good own beh hs fuel ops WSt.init hops (WInv.init own) hint
+  constructor
+  · intro x hx; rw [hx] at this; exact this
+  · intro w hr hnd hal; rw [RunsW] at hr; rw [hr] at this; exact this hnd hal
+
+/-- **The root window unbinds its own bindings and nothing else** (the last `tickit_window_unref`: `tickit_window_destroy`).
+    In any state the invariant allows, with the root window's bindings not unbound by anybody else: the three
+    `tickit_term_unbind_event_id(root->term, root->event_ids[i])` complete; what they record is exactly the three unbind
+    requests for the root window's own bindings — no handler is entered, so no binding of the application receives an
+    unbind notification; the chain loses exactly these three nodes; and every other binding is live afterwards iff it was
+    before (it goes on being delivered every occurrence: `fire_order` applies to the state reached). -/
+theorem root_window_unbinds_only_its_own (own : Owner) (beh : Behaviour) (hs : Safe own beh) (w : WSt) (h : WInv own w)
+    (hi : RootIntact w) (r : Root) (hr : w.root = some r) (hlast : r.refs = 1) (fuel : Nat) :
+    ∃ st1, unbindAll Cfg.repaired own beh (fuel + 1) r.ids w.st = .ok st1 ∧
+      st1.log = (r.keys.reverse.map Ev.unbindReq) ++ w.st.log ∧
+      st1.list = w.st.list.filter (fun b => !r.keys.contains b.key) ∧
+      Tickit.Bindings.Inv st1 ∧ st1.isIter = false ∧
+      (∀ k, k ∉ r.keys → (liveAt st1.log k ↔ liveAt w.st.log k)) ∧
+      (∀ k hh n fl occ, Ev.enter k hh n fl occ ∈ st1.log → Ev.enter k hh n fl occ ∈ w.st.log) := by
+  obtain ⟨st1, he, hlog, hlist, h1, _, hni, _, _, _, _⟩ := rootUnref_spec own beh hs h hi hr hlast fuel
+  refine ⟨st1, he, hlog, hlist, h1, hni, fun k hk => ?_, fun k hh n fl occ hm => ?_⟩
+  · rw [hlog]
+    exact liveAt_reqs _ _ _ (fun hm => hk (List.mem_reverse.1 hm))
+  · rw [hlog] at hm
+    rcases List.mem_append.1 hm with hm | hm
+    · simp at hm
+    · exact hm
+
+/-- **The application's handlers go on running.**  After the root window has gone, an occurrence of any event of the
+    terminal (the walker as the emitter calls it, holding its reference) is delivered exactly once to every binding of the
+    application's that was live for the event before the root window went and is still live when the occurrence ends, no
+    handler having claimed it: none of them was lost to the root window's unbinds. -/
+theorem app_bindings_run_after_root_window_left (own : Owner) (beh : Behaviour) (hs : Safe own beh) (w : WSt) (h : WInv own w)
+    (hi : RootIntact w) (r : Root) (hr : w.root = some r) (hlast : r.refs = 1) (fuel : Nat) :
+    ∃ st1, unbindAll Cfg.repaired own beh (fuel + 1) r.ids w.st = .ok st1 ∧
+      ∀ fuel' wf ev st' ret,
+        exec Cfg.repaired own beh fuel' (.runEvent wf ev) { st1 with refs := st1.refs + 1 } = .ok (st', ret) →
+        ∃ seg, st'.log = Ev.occEnd st1.nextOcc :: (seg ++ Ev.occBegin st1.nextOcc ev wf :: st1.log) ∧
+          ∀ k, k ∉ r.keys → evLive ev w.st.log k → evLive ev (seg ++ Ev.occBegin st1.nextOcc ev wf :: st1.log) k →
+            ¬ (wf = true ∧ ret ≠ 0) → (firesOf st1.nextOcc seg).count k = 1 := by
+  obtain ⟨st1, he, hlog, _, h1, hro1, hni, _, _, hn1, _⟩ := rootUnref_spec own beh hs h hi hr hlast fuel
+  refine ⟨st1, he, fun fuel' wf ev st' ret hex => ?_⟩
+  have h1' : Tickit.Bindings.Inv { st1 with refs := st1.refs + 1 } := h1.of_refs _ (by omega)
+  have hro1' : RefOk own { st1 with refs := st1.refs + 1 } := hro1.of_more_refs _ (by simp)
+  have hrefs : own.holdsRef = true →
+      b2n ({ st1 with refs := st1.refs + 1 } : St).userRef + ({ st1 with refs := st1.refs + 1 } : St).frozenRefs + 1 ≤
+        ({ st1 with refs := st1.refs + 1 } : St).refs := by
+    intro hh
+    have := hro1.2 hh
+    rw [hni] at this
+    simp only [b2n_false, Nat.add_zero] at this
+    simp only
+    omega
+  have hocc : 1 ≤ ({ st1 with refs := st1.refs + 1 } : St).nextOcc := by simp only; rw [hn1]; exact h.occ
+  obtain ⟨seg, hseg, hall⟩ := fire_exactly_once own beh hs fuel' wf ev _ st' ret h1' hro1' hrefs hocc hex
+  refine ⟨seg, hseg, fun k hk hl0 hl1 hncl => hall k ?_ hl1 hncl⟩
+  obtain ⟨hla, id, first, fl, hb⟩ := hl0
+  refine ⟨?_, id, first, fl, ?_⟩
+  · simp only; rw [hlog]
+    exact (liveAt_reqs _ _ _ (fun hm => hk (List.mem_reverse.1 hm))).2 hla
+  · simp only; rw [hlog]; exact List.mem_append_right _ hb
+
+/-- …and the whole `tickit_window_unref`: the root window is gone, the terminal has one reference less (or, if that was
+    the last one, is destroyed with the usual notifications), never undefined behaviour. -/
+theorem root_window_release (own : Owner) (beh : Behaviour) (hs : Safe own beh) (w : WSt) (h : WInv own w)
+    (hi : RootIntact w) (fuel : Nat) :
+    match rootUnref Cfg.repaired own beh fuel w with
+    | .ok w' => w'.st.dead = false → WInv own w'
+    | .ub _ => False
+    | .outOfFuel => True := by
+  have := rootUnref_good own beh hs fuel h hi
+  cases hc : rootUnref Cfg.repaired own beh fuel w with
+  | outOfFuel => trivial
+  | ub x => rw [hc] at this; exact this.elim
+  | ok w' => rw [hc] at this; exact fun hal => this hal rfl
+
+/-- `tickit_window_new_root` gets identifiers no live binding has, and they are the ones the root window keeps. -/
+theorem root_window_ids_fresh (own : Owner) (w : WSt) (h : WInv own w) (hn : w.root = none) :
+    ∃ r, (rootNew w).root = some r ∧ r.ids.length = 3 ∧ r.keys.length = 3 ∧
+      Owns (rootNew w).st r.pairs ∧ (∀ id ∈ r.ids, ∀ b ∈ w.st.list, b.id ≠ id) := by
+  have hw := rootNew_inv h
+  have hint : RootIntact (rootNew w) := by
+    intro r hr k hk hreq
+    simp only [rootNew, hn] at hr hreq
+    simp only [Option.some.injEq] at hr
+    subst hr
+    simp only [libBind_log, reqIn, List.mem_cons, reduceCtorEq, false_or] at hreq
+    have := h.top.1.logKeys _ hreq k rfl
+    simp only [List.mem_cons, List.not_mem_nil, or_false, libBind_slotIds, List.length_append, List.length_singleton] at hk
+    omega
+  simp only [rootNew, hn] at hw hint ⊢
+  refine ⟨_, rfl, rfl, rfl, hw.owns hint rfl, ?_⟩
+  intro id hid b hb heq
+  -- the identifier belongs to one of the three new nodes, whose key no old node has; live identifiers are unique
+  have hown := hw.owns hint rfl
+  have hlen : ∀ k ∈ [w.st.slotIds.length, (libBind { w.st with refs := w.st.refs + 1 } 1 0).slotIds.length,
+      (libBind (libBind { w.st with refs := w.st.refs + 1 } 1 0) 2 1).slotIds.length], w.st.slotIds.length ≤ k := by
+    intro k hk
+    simp only [List.mem_cons, List.not_mem_nil, or_false, libBind_slotIds, List.length_append, List.length_singleton] at hk
+    omega
+  obtain ⟨p, hp, hpid⟩ : ∃ p ∈ Root.pairs ⟨[nextId { w.st with refs := w.st.refs + 1 }, nextId (libBind { w.st with refs := w.st.refs + 1 } 1 0),
+      nextId (libBind (libBind { w.st with refs := w.st.refs + 1 } 1 0) 2 1)],
+      [w.st.slotIds.length, (libBind { w.st with refs := w.st.refs + 1 } 1 0).slotIds.length,
+        (libBind (libBind { w.st with refs := w.st.refs + 1 } 1 0) 2 1).slotIds.length], 1, false⟩, p.2 = id := by
+    simp only [Root.pairs, List.zip_cons_cons, List.zip_nil_right]
+    simp only [List.mem_cons, List.not_mem_nil, or_false] at hid
+    rcases hid with rfl | rfl | rfl
+    · exact ⟨_, List.mem_cons_self .., rfl⟩
+    · exact ⟨_, List.mem_cons_of_mem _ (List.mem_cons_self ..), rfl⟩
+    · exact ⟨_, List.mem_cons_of_mem _ (List.mem_cons_of_mem _ (List.mem_cons_self ..)), rfl⟩
+  obtain ⟨c, hcm, hck, hcid, hcl, _⟩ := hown.2 p hp
+  have hbm : b ∈ (libBind (libBind (libBind { w.st with refs := w.st.refs + 1 } 1 0) 2 1) 3 2).list := by
+    rw [libBind_list, libBind_list, libBind_list]
+    simp only [List.append_assoc, List.mem_append]
+    exact Or.inl hb
+  have hkk := hw.top.1.idsUnique c hcm b hbm hcl (by rw [hcid, hpid, heq])
+  have hkl := h.top.1.keysLt b hb
+  have hpk : p.1 ∈ [w.st.slotIds.length, (libBind { w.st with refs := w.st.refs + 1 } 1 0).slotIds.length,
+      (libBind (libBind { w.st with refs := w.st.refs + 1 } 1 0) 2 1).slotIds.length] := (List.of_mem_zip hp).1
+  have := hlen p.1 hpk
+  omega
+
+/-- The demonstration's scenario on the model of the unchanged code: a root window is created, closed while still
+    referenced, the application then binds a key handler that asks for an unbind notification, a key arrives, the root
+    window's last reference goes, a second key arrives.  The handler (binding 3) ran for both keys and got no notification;
+    the root window had identifiers 1, 2, 3 and the new binding got 4, because closing a root window unbinds nothing. -/
+example :
+    (match execWOps Cfg.repaired { Owner.term with holdsRef := true } behNone 40
+        [.rootNew, .rootRef, .rootClose, .rootUnref, .base (.bind 2 false wantsUnbind 0), .base (.emit 2), .rootUnref, .base (.emit 2)]
+        WSt.init with
+     | .ok w => some (w.st.log.countP (isEnterFire 3), w.st.log.countP (isNotif 3), keys w.st.list, w.st.slotIds, w.root.isNone)
+     | _ => none) = some (2, 0, [3], [0, 0, 0, 4], true) := by decide
+
+/-- …the three unbind requests it recorded are those of the root window's bindings 0, 1, 2, and the terminal is back to the
+    application's one reference. -/
+example :
+    (match execWOps Cfg.repaired { Owner.term with holdsRef := true } behNone 40
+        [.rootNew, .rootRef, .rootClose, .rootUnref, .base (.bind 2 false wantsUnbind 0), .base (.emit 2), .rootUnref, .base (.emit 2)]
+        WSt.init with
+     | .ok w => some (w.st.log.countP (isReq 0), w.st.log.countP (isReq 1), w.st.log.countP (isReq 2), w.st.log.countP (isReq 3), w.st.refs)
+     | _ => none) = some (1, 1, 1, 0, 1) := by decide
+
+/-- `Intact` is inhabited by that history (nobody else unbinds the root window's bindings in it)… -/
+example : Intact { Owner.term with holdsRef := true } behNone 40
+    [.rootNew, .rootClose, .base (.bind 2 false wantsUnbind 0), .rootUnref, .base (.emit 2)] WSt.init :=
+  intact_of_B _ _ _ _ _ (by decide)
+
+/-- The hypothesis excludes exactly this: an application that unbinds an identifier it has already unbound, after the root
+    window was given the same identifier (`max + 1`), removes the root window's resize binding. -/
+example : intactB { Owner.term with holdsRef := true } behNone 40
+    [.base (.bind 1 false plain 0), .base (.unbind 0), .rootNew, .base (.unbind 0), .rootUnref] WSt.init = false := by decide
+
+/-- …and why it matters that the identifiers are unbound *once*: unbinding the same three identifiers a second time, after
+    the application has bound a handler in between (which got identifier 1 again), removes the application's binding and
+    sends it an unbind notification nobody asked for.  (`Owns` fails for the second round: the identifiers no longer denote
+    the root window's bindings.) -/
+example :
+    (match unbindAll Cfg.repaired Owner.term behNone 20 [1, 2, 3] (rootNew WSt.init).st with
+     | .ok st1 =>
+        (match unbindAll Cfg.repaired Owner.term behNone 20 [1, 2, 3] (bindEvent st1 2 false wantsUnbind 0) with
+         | .ok st2 => some ((bindEvent st1 2 false wantsUnbind 0).slotIds, keys st2.list, st2.log.countP (isNotif 3))
+         | _ => none)
+     | _ => none) = some ([0, 0, 0, 1], [], 1) := by decide
 
 /-! ### the unchanged code violates the clauses: counterexample theorems
 
